@@ -35,7 +35,7 @@ RULE = (
     "super()) x argument shape (none, positional, keyword, *args, **kwargs) x reachability wrapper (if/else/elif, "
     "empty loop, loop else, filtered loop) x {default, overriding is_safe_callable} x {sync, async}; quick: all path x "
     "callable x environment combinations are enumerated with rotating argument shapes and wrappers, plus Hypothesis "
-    "draws from the full product; thorough: the full product is enumerated.  Non-trivial = the call site is reached, the environment deems the callable unsafe, and "
+    "draws from the full product; thorough: the full product, also with two nested wrappers, is enumerated.  Non-trivial = the call site is reached, the environment deems the callable unsafe, and "
     "the callable arrives through at least one level of indirection; distinct = distinct case."
 )
 ASSUMPTIONS = [
@@ -266,7 +266,7 @@ def run_shard(spec, ctx):
         if not rec.violations:
             core.hyp_shard(g.call_case(), check_case, ctx, 2500, rec=rec, tag="call")
     else:
-        # thorough: the complete product of the grammar (about 2.6e5 programs)
+        # thorough: the complete product of the grammar with up to two nested wrappers (about 1.9e6 programs)
         core.enum_shard(core.sliced(g.call_full_cases(), ctx.index, ctx.nshards), check_case, ctx, rec=rec)
     return rec
 
